@@ -915,6 +915,13 @@ class Engine:
                         dl,
                     )
                     return
+            if tr in (f.raw.get("private_traits") or ()):
+                # a method of a trait that cannot be implemented outside this crate, called on a type parameter (inside a provided
+                # method, `self.pointee()`): it is one of the crate's own impls - if all of them are pure, so is the call
+                cands = [it["key"] for im in f.impls if im.get("trait") == tr for it in im["items"] if it["name"] == t.get("callee_name") and it["key"] in f.bodies]
+                if cands and all(self._is_pure_fn(k) for k in cands):
+                    self._apply([mk()], "STD", {"callee": callee, "impls": len(cands)}, t, bb, st, fork, emit, nexts, dl)
+                    return
             if tr == "core::clone::Clone":
                 self._apply([mk(v=vec(uclone=1, user=1)), mk(exit="unw", v=vec(uclone=1, user=1), origin="user")], "UCLONE", {"callee": callee, "self": f.ts(st_i) if st_i is not None else "?"}, t, bb, st, fork, emit, nexts, dl)
                 return
